@@ -192,6 +192,14 @@ def mpd_shift_ast(xml: bytes, seconds: int):
     return _serialise(root), {"old": old, "new": new}
 
 
+def mpd_change_id(xml: bytes, suffix: str):
+    root = etree.fromstring(xml)
+    old = root.get("id")
+    new = (old or "") + suffix
+    root.set("id", new)
+    return _serialise(root), {"old": old, "new": new}
+
+
 def timeline_expand(tl) -> list:
     """independent DASH reading of a SegmentTimeline element: [(t, d)]"""
     out = []
@@ -266,13 +274,16 @@ def apply_corruption(c: dict, data: bytes):
         return mpd_drop_attr(data, c["xpath"], c["attr"])
     if k == "ast":
         return mpd_shift_ast(data, c["seconds"])
+    if k == "mpdid":
+        return mpd_change_id(data, c["suffix"])
     if k == "timeline":
         return mpd_timeline(data, c["which"], c["op"], c["index"], c.get("amount", 0))
     raise CorruptionError(f"unknown corruption {k}")
 
 
 CLASS_OF_KIND = {"tfdt": "media", "mfhd": "media", "trun": "media", "saio": "media",
-                 "initbox": "init", "mpdattr": "manifest", "ast": "manifest", "timeline": "manifest"}
+                 "initbox": "init", "mpdattr": "manifest", "ast": "manifest", "mpdid": "manifest",
+                 "timeline": "manifest"}
 
 
 # --------------------------------------------------------------------------- HTTP adapter
